@@ -568,3 +568,27 @@ def big_frame_modules(L, tab):
             m.entry = 0
             out.append(("big-frame-%s-%d" % (kind, n), m.build(L)))
     return out
+
+
+def deep_value_modules(L, tab):
+    """a value nested N containers deep, built by a loop, then dropped / printed / compared at function exit: whatever walks the
+    value must not need a C stack frame per level"""
+    names = {nm: op for op, (nm, ops) in tab.items()}
+    E = lambda nm, *vals: nvm.encode_instr(names[nm], [v & ((1 << 64) - 1) for v in vals], tab)
+    out = []
+    for n in (1000, 30000, 100000):
+        for use_name, use in (("drop", b""), ("println", E("LOAD_LOCAL", 0) + E("PRINTLN")), ("equal-self", E("LOAD_LOCAL", 0) + E("LOAD_LOCAL", 0) + E("EQ") + E("PRINTLN"))):
+            if n == 100000 and use_name != "drop":
+                continue      # (the probe's object registry is quadratic: one 100000-level case is enough for the walk that frees)
+            m = nvm.Mod()
+            m.strings = [b"main"]
+            pre = E("ARR_NEW", 7) + E("STORE_LOCAL", 0) + E("PUSH_I64", n) + E("STORE_LOCAL", 1)
+            body = (E("ARR_NEW", 7) + E("LOAD_LOCAL", 0) + E("ARR_PUSH") + E("STORE_LOCAL", 0)
+                    + E("LOAD_LOCAL", 1) + E("PUSH_I64", 1) + E("SUB") + E("STORE_LOCAL", 1) + E("LOAD_LOCAL", 1))
+            loop = body + E("JMP_TRUE", (-len(body)) & 0xFFFFFFFF)
+            code = pre + loop + use + E("PUSH_I64", 0) + E("RET")
+            m.code = code
+            m.functions = [[0, 0, 0, len(code), 2, 0]]
+            m.entry = 0
+            out.append(("deep-value-%d-%s" % (n, use_name), m.build(L), 12 * n + 100))
+    return out
